@@ -22,6 +22,13 @@ Definition dest_named (m : member) (h : type_hint) : option bool :=
 
 Definition own (f : fview) : list tok := [member_tok (fv_member f)].
 
+(* the path of counterpart member x as seen from field f: prefixed by f's #[child(a.b)] path *)
+Definition path_of (f : fview) (x : member) : list tok :=
+  match fv_child f with
+  | Some ch => print_member_path ch ++ [dot; member_tok x]
+  | None => [member_tok x]
+  end.
+
 (* ---- Into / IntoExisting: the value read from the deriving struct ---- *)
 (* no instruction: self.<member>; with an instruction: its expression with ~ = self.<member>, @ = self, else self.<member> *)
 Definition value_out (f : fview) (c : ictx) : res (list tok) :=
@@ -53,12 +60,12 @@ Definition spec_line_out (f : fview) (c : ictx) (hint : type_hint) (idx : nat) :
   | None => Ok []
   | Some true =>
       p <- place_named f ;; v <- value_out f c ;;
-      if is_into_existing (c_kind c) then Ok ([TIdent "other"; dot; member_tok p; P1 "="] ++ v ++ [semi])
+      if is_into_existing (c_kind c) then Ok ([TIdent "other"; dot] ++ path_of f p ++ [P1 "="] ++ v ++ [semi])
       else Ok ([member_tok p; P1 ":"] ++ v ++ [comma])
   | Some false =>
       if is_into_existing (c_kind c) then
         p <- place_positional f idx ;; v <- value_out f c ;;
-        Ok ([TIdent "other"; dot; member_tok p; P1 "="] ++ v ++ [semi])
+        Ok ([TIdent "other"; dot] ++ path_of f p ++ [P1 "="] ++ v ++ [semi])
       else v <- value_out f c ;; Ok (v ++ [comma])
   end.
 
@@ -75,9 +82,9 @@ Definition value_in (f : fview) (c : ictx) (hint : type_hint) : res (list tok) :
   | None =>
       match fv_member f, hint with
       | MIndex _, HStruct => Panic "6"
-      | _, _ => Ok (obj_of c ++ [member_tok (default_source f hint)])
+      | _, _ => Ok (obj_of c ++ path_of f (default_source f hint))
       end
-  | Some a => get_stuff a (obj_of c) (fun x => [member_tok x]) c (default_source f hint)
+  | Some a => get_stuff a (obj_of c) (path_of f) c (default_source f hint)
   end.
 
 Definition spec_line_in (f : fview) (c : ictx) (hint : type_hint) : res (list tok) :=
@@ -88,19 +95,26 @@ Definition spec_line_in (f : fview) (c : ictx) (hint : type_hint) : res (list to
   end.
 
 Definition plain_field (f : fview) (c : ictx) : Prop :=
-  fv_child f = None /\ fv_has_parent f = false /\ is_variant c = false /\ c_post_init c = false.
+  fv_has_parent f = false /\ is_variant c = false /\ c_post_init c = false.
+
+(* the one cell where into_existing drops the child path (finding F-03b): positional counterpart, field without instruction *)
+Definition f03b_cell (f : fview) (c : ictx) (hint : type_hint) : Prop :=
+  is_into_existing (c_kind c) = true /\ dest_named (fv_member f) hint = Some false /\ fv_attr f = None /\ fv_child f <> None.
 
 Theorem line_out : forall f c hint idx,
-    plain_field f c -> is_from (c_kind c) = false ->
+    plain_field f c -> is_from (c_kind c) = false -> ~ f03b_cell f c hint ->
     render_struct_line f c hint idx None = spec_line_out f c hint idx.
 Proof.
-  intros f c hint idx [Hc [Hp [Hv Hpi]]] Hk.
-  unfold render_struct_line, spec_line_out, value_out, place_named, place_positional, own, obj_of, dest_named.
-  rewrite Hc, Hv, Hpi, Hk.
+  intros f c hint idx [Hp [Hv Hpi]] Hk Hcell.
+  unfold f03b_cell in Hcell.
+  unfold render_struct_line, spec_line_out, value_out, place_named, place_positional, own, obj_of, dest_named, path_of in *.
+  rewrite Hv, Hpi, Hk.
+  destruct (fv_child f) as [ch|];
   destruct (fv_member f) as [n|i]; destruct (fv_attr f) as [a|]; destruct hint; destruct (c_kind c);
     cbn [is_from] in Hk; try discriminate Hk;
-    cbn [is_intoish is_into_existing is_from hint_su hint_tu hint_eqb andb orb negb is_named_member bind member_tok app];
+    cbn [is_intoish is_into_existing is_from hint_su hint_tu hint_eqb andb orb negb is_named_member bind member_tok app] in *;
     try rewrite Hp; try reflexivity;
+    try (exfalso; apply Hcell; repeat split; congruence);
     repeat match goal with
            | |- context [get_field_name_or ?a ?m] => destruct (get_field_name_or a m); cbn [bind]; try reflexivity
            | |- context [get_ident ?a] => destruct (get_ident a); cbn [bind]; try reflexivity
@@ -108,13 +122,28 @@ Proof.
            end.
 Qed.
 
+Lemma line_out_f03b_refuted :
+  exists f c hint idx, plain_field f c /\ is_from (c_kind c) = false /\ f03b_cell f c hint /\
+                       render_struct_line f c hint idx None <> spec_line_out f c hint idx.
+Proof.
+  exists {| fv_member := MIndex 0; fv_idx := 0; fv_str := "0"; fv_ty := None; fv_child := Some [MIndex 0]; fv_ghost := None;
+            fv_has_parent := false; fv_has_pl_parent := false; fv_pparent := None; fv_attr := None |}.
+  exists {| c_kind := OwnedIntoExisting; c_fallible := false;
+            c_core := {| tc_ty := {| tp_path := []; tp_str := "D"; tp_generics := None; tp_nameless := false |}; tc_err := None; tc_hint := HUnspecified;
+                         tc_init := None; tc_update := None; tc_qret := None; tc_default := None; tc_repeat := None; tc_skip := false; tc_stop := false;
+                         tc_attr := None; tc_impl_attr := None; tc_inner_attr := None |};
+            c_hint := HUnspecified; c_impl_type := ITStruct; c_dst := []; c_src := []; c_post_init := false; c_named := false |}.
+  exists HUnspecified, 0. repeat split; try reflexivity; try discriminate.
+Qed.
+
 Theorem line_in : forall f c hint idx,
     plain_field f c -> is_from (c_kind c) = true ->
     render_struct_line f c hint idx None = spec_line_in f c hint.
 Proof.
-  intros f c hint idx [Hc [Hp [Hv Hpi]]] Hk.
-  unfold render_struct_line, spec_line_in, value_in, default_source, own, obj_of.
-  rewrite Hc, Hv, Hpi, Hk, Hp.
+  intros f c hint idx [Hp [Hv Hpi]] Hk.
+  unfold render_struct_line, spec_line_in, value_in, default_source, own, obj_of, path_of.
+  rewrite Hv, Hpi, Hk, Hp.
+  destruct (fv_child f) as [ch|];
   destruct (fv_member f) as [n|i]; destruct (fv_attr f) as [a|]; destruct hint; destruct (c_kind c);
     cbn [is_from] in Hk; try discriminate Hk;
     cbn [is_intoish is_into_existing is_from hint_su hint_tu hint_eqb andb orb negb bind member_tok app];
